@@ -124,7 +124,9 @@ func (r *Rule) isEqualsTo(newRule *Rule) bool {
 	case ErrorCount:
 		return r.Threshold == newRule.Threshold
 	default:
-		return false
+		// A strategy registered with SetCircuitBreakerGenerator: which of the strategy specific
+		// fields it reads is not known here, so all of them must agree.
+		return r.MaxAllowedRtMs == newRule.MaxAllowedRtMs && r.Threshold == newRule.Threshold
 	}
 }
 
